@@ -168,6 +168,9 @@ class M:
     def __init__(self, env, i, shape):
         self.env, self.i, self.shape = env, i, shape
 
+    def __bool__(self):
+        return False          # managers are falsy objects: presence must never be decided by truthiness
+
     def __enter__(self):
         ev = self.env.expect("enter", self.i)
         self.env.inner_probe(ev, "enter", None)
@@ -189,6 +192,9 @@ class M:
 class AM:
     def __init__(self, env, i, shape):
         self.env, self.i, self.shape = env, i, shape
+
+    def __bool__(self):
+        return False
 
     async def __aenter__(self):
         ev = self.env.expect("enter", self.i)
@@ -414,6 +420,37 @@ class Checker:
             self.bad("contexts_active_in_frame raised %r" % (ex,), **info)
         return st
 
+    def check_released(self, obj):
+        """C06: extractions that FAIL release the target too.  The frame of a suspended target runs nowhere, so
+        extract_since / extract_until / a StackSlice naming it end with a recorded error; once those Stacks are dropped
+        the frame object must be referenced exactly as before."""
+        fr = getattr(obj, "gi_frame", None) or getattr(obj, "cr_frame", None) or getattr(obj, "ag_frame", None)
+        if fr is None or getattr(self, "released_checked", False):
+            return
+        self.released_checked = True          # once per run (first observed suspension): the collection below is not free
+        gc.collect(0)
+        rc0 = sys.getrefcount(fr)
+        with warnings.catch_warnings(record=True):
+            warnings.simplefilter("always")
+            try:
+                a = stackscope.extract_since(fr)
+                b = stackscope.extract(stackscope.StackSlice(outer=fr))
+                c = stackscope.extract(stackscope.StackSlice(outer=fr, limit=1))
+            except BaseException as ex:
+                self.bad("extraction of a slice naming the suspended frame raised %r" % (ex,))
+                return
+        if a.error is None or b.error is None:
+            self.bad("a slice starting at a frame that runs nowhere gave no error")
+        del a, b, c
+        gc.collect(0)                         # the recorded error sits in a reference cycle with its own traceback
+        rc1 = sys.getrefcount(fr)
+        if rc1 != rc0:
+            gc.collect()
+            rc1 = sys.getrefcount(fr)
+        if rc1 != rc0:
+            self.bad("the target's frame is referenced %d times after failed extractions were dropped, %d before "
+                     "(stackscope retains it)" % (rc1, rc0))
+
     def check_metadata(self, env, fr, info):
         """C08: start_line and varname of every reported context"""
         for c, (m, _, _) in zip(fr.contexts, info["exp"]):
@@ -616,7 +653,10 @@ def drive_suspended(fn, r, beh, carrier, checker, observe=True, mask=None, reps=
                         viaw = stackscope.extract(Job(obj))
                     if stacks[0] is not None and [f.pyframe for f in viaw.frames] != [f.pyframe for f in stacks[0].frames]:
                         checker.bad("extraction through a wrapper item differs")
+                    del viaw
                 del stacks
+                if checker.mode == "purity":
+                    checker.check_released(obj)
             sends += 1
         env.finish()
         spec_out = beh["out"]
